@@ -4,5 +4,6 @@ CONSTANTS MaxDecl = 3
  MaxOpen = 3
  Variant = "ok"
  Emit = FALSE
+ Decls = {"obj","typedef","enum","tag","tagfwd","tagref","mem","lab"}
 INVARIANTS SameBinding Balanced
 CHECK_DEADLOCK FALSE
